@@ -567,6 +567,9 @@ pub fn run(tier: &str, seed: u64, dir: &str) {
         let host = FlattenHost { color: palette::Srgba::new(r, g, b, a), id: 7 };
         if let Ok(js) = serde_json::to_string(&host) { if serde_json::from_str::<FlattenHost<palette::Srgba<f32>>>(&js).is_err() { cx.flatten_missing += 1; } }
     }
+    // coverage audit: shapes, alpha types, helper names / types, format entry points and identifier kinds the clauses above do not drive
+    // (`c20_more.rs`).  Called last, so that the case stream above is unchanged.
+    crate::c20_more::run_more(&mut cx.out, &mut cx.rng, thorough);
     let extra = format!("\"info\":{{\"types\":{},\"bounded_sequence_reader_loses_alpha\":{},\"serde_flatten_host_loses_alpha\":{}}}", n_types, cx.bounded_alpha_missing, cx.flatten_missing);
     cx.out.finish(dir, &extra);
 }
